@@ -395,7 +395,7 @@ func init() {
 	fw.Register(&fw.Property{
 		ID:          "C02",
 		Level:       "exploration",
-		Rule:        "per generated base table with unique keys (1..2000 rows): >=20 ingests of the same logical table under row permutations (reversed, sorted, random), run sizes (0..one-chunk-per-row spills, auto), workers {1,2,3,4,8,16}, delimiters, badger and CLI samples - all sums must be equal; re-ingest into the same store must not change the key set; single mutations (cell, column name, column swap, row removed, key order, key dropped) must change the sum; through the CLI a permuted re-commit of a branch file must report 'hasn't changed' and leave ref and reflog untouched, and after the branch's key is reconfigured (subset, reversed pair, none, original) the cached commit of the unchanged file must produce the head table with that key and the id a direct ingest gives; distinct_nontrivial = distinct base tables with >=2 rows",
+		Rule:        "per generated base table with unique keys (1..2000 rows): >=20 ingests of the same logical table under row permutations (reversed, sorted, random), run sizes (0..one-chunk-per-row spills, auto), workers {1,2,3,4,8,16}, delimiters, badger and CLI samples - all sums must be equal; re-ingest into the same store must not change the key set; single mutations (cell, column name, column swap, row removed, key order, key dropped) must change the sum; through the CLI (branch file plain or behind a symbolic link) a permuted re-commit of a branch file must report 'hasn't changed' and leave ref and reflog untouched, a cached commit after an edit dated two seconds after the cache entry must commit it, and after the branch's key is reconfigured (subset, reversed pair, none, original) the cached commit of the unchanged file must produce the head table with that key and the id a direct ingest gives; distinct_nontrivial = distinct base tables with >=2 rows",
 		Assumptions: []string{"collision resistance of the meow hash is assumed, not tested", "keys are unique in the generated tables"},
 		Gen: func(tier string, seed int64) []fw.Case {
 			l := fw.NewCaseList("C02", tier, seed)
